@@ -172,7 +172,7 @@ example :
     inside a directory before its watch existed is announced by the walk of `_recursive_simulate`, not by the kernel.) -/
 theorem replay_growth_burst_partial (fs0 : FS) (hwf : fs0.WF) (full : Bool) (pre burst : List Op)
     (hv : allValid (Sys.start fs0 true full) pre = true) (hroot : Op.rmdir ["W"] ∉ pre)
-    (hb : allGrow ((Sys.start fs0 true full).run pre).1.fs burst = true) :
+    (hb : allFill ((Sys.start fs0 true full).run pre).1.fs burst = true) :
     sameTree (replay (treeW ((Sys.start fs0 true full).run pre).1.fs) (((Sys.start fs0 true full).run pre).1.burst burst).2)
              (treeW (((Sys.start fs0 true full).run pre).1.burst burst).1.fs) := by
   obtain ⟨inv, hs, hc⟩ := after_history fs0 hwf full pre hv hroot
@@ -184,7 +184,7 @@ example :
     let s := ((Sys.start FS.init true false).run [.mkdir ["W", "a"]]).1
     let ops := [Op.mkdir ["W", "a", "b"], .mkdir ["W", "a", "b", "c"], .create ["W", "a", "b", "c", "f"], .create ["W", "a", "g"],
                 .mkdir ["W", "x"], .mkdir ["W", "x", "y"], .create ["W", "x", "y", "z"]]
-    allGrowB s ops = true ∧
+    allFillB s ops = true ∧
     (s.burst ops).2.map PEv.toEvent =
       [⟨.DirCreatedEvent, "W/a/b", "", false⟩, ⟨.DirModifiedEvent, "W/a", "", false⟩,
        ⟨.DirCreatedEvent, "W/a/b/c", "", false⟩, ⟨.DirModifiedEvent, "W/a/b", "", false⟩,
